@@ -11,7 +11,7 @@ from . import par_common as pc
 
 PROP = "C01"
 LEVEL = "exploration"
-TIMEOUT_S = 180.0
+TIMEOUT_S = 600.0
 RULE = ("one run = seeded (flavour T/M/L/G/G-multi/G-noretrieve/sequential, n_jobs, batch_size, pre_dispatch, "
         "return_as, managed, 1-3 calls of 0..40 tasks with virtual durations) x seeded schedule (random or PCT, "
         "line/opcode pre-emption inside joblib/parallel.py and _parallel_backends.py); distinct = distinct digest "
